@@ -18,7 +18,7 @@ if ov:
 print("$PKG")
 PY
 )
-RUNNAME=$(grep -h -o 'func Test[A-Za-z0-9_]*' $SD/demo_test.go | head -1 | sed 's/func //')
+RUNNAME=$(grep -h -o 'func Test[A-Za-z0-9_]*' $SD/demo_test.go | sed 's/func //' | paste -sd'|')
 echo "patch package: $PKG demo package: $DEMO_PKG demo test: $RUNNAME" >> $OUT
 mk_ov() { # overlay hiding existing tests of demo package, adding demo
 python3 - <<PY
